@@ -2,6 +2,7 @@ package rules
 
 import (
 	"go/constant"
+	"go/types"
 	"strings"
 
 	"golang.org/x/tools/go/ssa"
@@ -39,6 +40,27 @@ func (e *Env) DeepPaths(v ssa.Value) ([]DeepPath, bool) {
 			root = ir.Resolve(p.Root)
 			fields = append(append([]string{}, p.Fields...), suffix...)
 		}
+		// a field of a small unexported helper struct of the repository kept in a local or
+		// handed around by pointer (`previous.lookup(...)` fills `previous.status`, the caller
+		// reads it): the field stands for what is stored into it, anywhere
+		switch root.(type) {
+		case *ssa.Alloc, *ssa.Parameter, *ssa.FreeVar:
+			if len(fields) > 0 {
+				if st, isS := derefT(root.Type()).Underlying().(*types.Struct); isS {
+					for k := 0; k < st.NumFields(); k++ {
+						if st.Field(k).Name() != fields[0] {
+							continue
+						}
+						if vals := e.helperObjectFields(root.Type(), k); len(vals) > 0 {
+							for _, sv := range vals {
+								walk(sv, fields[1:], depth+1, nil)
+							}
+							return
+						}
+					}
+				}
+			}
+		}
 		switch x := root.(type) {
 		case *ssa.Phi:
 			for _, ed := range x.Edges {
@@ -52,6 +74,14 @@ func (e *Env) DeepPaths(v ssa.Value) ([]DeepPath, bool) {
 				for i, p := range x.Parent().Params {
 					if p == x && i < len(c.Call.Args) && c.Call.StaticCallee() == x.Parent() {
 						walk(c.Call.Args[i], fields, depth+1, stack[:n-1])
+						return
+					}
+				}
+			} else if us := ir.UniqueSite(x.Parent()); us != nil {
+				// a helper called from one place: the parameter is that call's argument
+				for i, p := range x.Parent().Params {
+					if p == x && i < len(us.Common().Args) {
+						walk(us.Common().Args[i], fields, depth+1, nil)
 						return
 					}
 				}
